@@ -23,7 +23,7 @@ class C11(Prop):
     id = "C11"
     gc_before = True  # runs contain explicit gc events: garbage of earlier runs must not be finalised inside them
     level = "exploration"
-    tiers = {"quick": [("plain", 30000), ("faults", 15000)], "thorough": [("plain", 700000), ("faults", 400000)]}
+    tiers = {"quick": [("plain", 180000), ("faults", 90000)], "thorough": [("plain", 3600000), ("faults", 1800000)]}
     rule_text = (
         "one case = generator spec (0..4 items; probe/record/pause/nested sync scope/nested stream between items; normal "
         "end or raise) x creation in scope A x consumption mode {same scope, other scope with different state, outside "
